@@ -119,12 +119,13 @@ class IterModel:
         self.size = (w, h)
         return ("ok",)
 
-    def op_args(self, compatible, salt):
+    def op_args(self, compatible, salt, extra=0):
         if self.closed:
             return ("err", "FinalizedIteratorError")
         if not compatible:
             return ("err", "IncompatibleRenderArgsError")
         self.salt = salt
+        self.extra = extra  # a second argument namespace value (does not affect the output)
         return ("ok",)
 
     def op_close(self):
@@ -132,4 +133,4 @@ class IterModel:
         return ("ok",)
 
     def settings_key(self):
-        return (self.size, self.dur, self.salt, tuple(self.pad), self.fill)
+        return (self.size, self.dur, self.salt, getattr(self, "extra", 0), tuple(self.pad), self.fill)
